@@ -126,11 +126,14 @@ enum Op {
     /// write_vectored with the chunk cut into two slices, driven by the standard protocol
     /// (advance by the reported count, retry on Interrupted) until everything is consumed
     Vectored,
+    /// `flush()`: hands nothing to the console and leaves the escape-sequence / character state alone
+    Flush,
 }
 const OPS: [Op; 4] = [Op::WriteAll, Op::Write, Op::Fmt, Op::Vectored];
 
 fn apply(stream: &mut WinconStream<Console>, op: Op, chunk: &[u8]) -> io::Result<Option<usize>> {
     match op {
+        Op::Flush => stream.flush().map(|_| None),
         Op::WriteAll => stream.write_all(chunk).map(|_| None),
         Op::Write => stream.write(chunk).map(Some),
         Op::Fmt => match std::str::from_utf8(chunk) {
@@ -199,8 +202,19 @@ struct ConsoleSys {
 }
 
 impl ConsoleSys {
+    /// the last token of the alphabet is `flush()` (no bytes); the others are (operation, chunk) pairs
     fn tok(&self, t: usize) -> (Op, usize) {
+        if t == self.inner.tokens.len() * 4 {
+            return (Op::Flush, usize::MAX);
+        }
         (OPS[t % 4], t / 4)
+    }
+    fn chunk(&self, c: usize) -> &[u8] {
+        if c == usize::MAX {
+            &[]
+        } else {
+            &self.inner.tokens[c]
+        }
     }
 }
 
@@ -210,11 +224,11 @@ impl System for ConsoleSys {
         "anstream::WinconStream/ops x tokens".into()
     }
     fn alphabet_len(&self) -> usize {
-        self.inner.tokens.len() * 4
+        self.inner.tokens.len() * 4 + 1
     }
     fn token_label(&self, t: usize) -> String {
         let (op, c) = self.tok(t);
-        format!("{op:?}({})", show(&self.inner.tokens[c]))
+        format!("{op:?}({})", show(self.chunk(c)))
     }
     fn init(&self) -> Vec<CState> {
         let s = WinconStream::new(Console(Default::default()));
@@ -224,7 +238,11 @@ impl System for ConsoleSys {
         hash_of(&(&s.canon, &s.model))
     }
     fn enabled(&self, s: &CState, t: usize) -> bool {
-        let (_, c) = self.tok(t);
+        let (op, c) = self.tok(t);
+        if op == Op::Flush {
+            // once per position is enough: not right after another flush
+            return s.history.last() != Some(&t);
+        }
         let g = &self.inner.guards[c];
         if !(g.is_empty() || (s.model.sgr.ul == Ul::None && g.len() == 1)) {
             return false;
@@ -238,14 +256,14 @@ impl System for ConsoleSys {
         let mut stream = WinconStream::new(Console(sh.clone()));
         for &h in &s.history {
             let (op, c) = self.tok(h);
-            apply(&mut stream, op, &self.inner.tokens[c]).map_err(|e| format!("machinery: history replay failed: {e}"))?;
+            apply(&mut stream, op, self.chunk(c)).map_err(|e| format!("machinery: history replay failed: {e}"))?;
         }
         if stream_canon(&stream) != s.canon {
             return Err("machinery: replayed history did not reproduce the state".into());
         }
         let before = sh.borrow().cells.len();
         let (op, c) = self.tok(t);
-        let chunk = &self.inner.tokens[c];
+        let chunk = self.chunk(c);
         let r = apply(&mut stream, op, chunk).map_err(|e| format!("{op:?} failed on a console that accepts everything: {e}"))?;
         if let Some(n) = r {
             if n != chunk.len() {
@@ -429,6 +447,24 @@ fn run_large(n: usize, shift: usize, op: Op) -> Result<(), String> {
             return Ok(());
         } else {
             apply(&mut stream, op, &chunk).map_err(|e| format!("{op:?} failed on a console that accepts everything: {e}"))?;
+        }
+        if op == Op::Fmt {
+            // the same text as a small piece followed by a large one (and three pieces) in one write!
+            if let Ok(t) = std::str::from_utf8(&chunk) {
+                for first in [1usize, 9, 300] {
+                    let cut = (0..=first.min(t.len())).rev().find(|&c| t.is_char_boundary(c)).unwrap_or(0);
+                    let cut2 = (0..=(cut + 5).min(t.len())).rev().find(|&c| t.is_char_boundary(c)).unwrap_or(cut);
+                    let sh2 = Rc::new(RefCell::new(Shared::default()));
+                    let mut s2 = WinconStream::new(Console(sh2.clone()));
+                    write!(s2, "{}{}{}", &t[..cut], &t[cut..cut2], &t[cut2..]).map_err(|e| format!("write! failed on a console that accepts everything: {e}"))?;
+                    let exp = expected_cells(&mut RunModel::default(), &chunk);
+                    let got = sh2.borrow().cells.clone();
+                    if got != exp {
+                        let what = if got.len() != exp.len() || got.iter().map(|c| c.2).ne(exp.iter().map(|c| c.2)) { "text handed to the console differs" } else { "console colours differ" };
+                        return Err(format!("{what}: write! of {n} bytes in pieces of {cut}, {} and {} bytes (unit shifted by {shift}): first difference at cell {:?}", cut2 - cut, t.len() - cut2, got.iter().zip(exp.iter()).position(|(a, b)| a != b)));
+                    }
+                }
+            }
         }
         let mut model = RunModel::default();
         let exp = expected_cells(&mut model, &chunk);
@@ -717,7 +753,7 @@ fn main_check(ctx: &Ctx) -> Outcome {
     // multi-byte character straddling every offset near the cut, through every entry point driven by the standard protocol
     {
         let unit = LARGE_UNIT.as_bytes();
-        let sizes: Vec<usize> = if quick { vec![8191, 8192, 8193, 16385, 20000] } else { vec![4095, 4096, 4097, 8191, 8192, 8193, 16383, 16384, 16385, 20000, 65535, 65537, 131073] };
+        let sizes: Vec<usize> = if quick { vec![1023, 1024, 1025, 8191, 8192, 8193, 16385, 20000] } else { vec![4095, 4096, 4097, 8191, 8192, 8193, 16383, 16384, 16385, 20000, 65535, 65537, 131073] };
         let cases: Vec<(usize, usize, Op)> = sizes.iter().flat_map(|&n| (0..unit.len()).flat_map(move |sh| OPS.iter().map(move |&op| (n, sh, op)))).collect();
         let bad = std::sync::Mutex::new(Vec::<Finding>::new());
         cases.par_iter().for_each(|&(n, shift, op)| {
